@@ -312,15 +312,42 @@ Definition chk_reports (pre : list event) (e : event) : bool :=
   match e with ERunReturn ResNil => existsb is_nonfail_trigger pre | _ => true end.
 Definition c04_reports (c : config) (t : list event) : bool := all_check chk_reports t.
 
-(* ---------------------------------------------------------------- C03 (pending error) *)
+(* ---------------------------------------------------------------- C06 (a subscriber learns new entries) *)
 
-(* [c03_pending] above does not hold of every schedule (SupPending.c03_pending_refuted): when the
-   supervisor's context is cancelled while a failure is queued, the readiness wait may take the
-   ctx.Done branch and the start-up loop goes on.  With the exception C03 itself makes ("unless the
-   supervisor's context has already been cancelled") it holds. *)
-Definition chk_pending_nc (pre : list event) (e : event) : bool :=
+(* the events before / after the first one satisfying f *)
+Fixpoint split_at (f : event -> bool) (t : list event) : option (list event * list event) :=
+  match t with
+  | [] => None
+  | e :: t' => if f e then Some ([], t')
+               else match split_at f t' with Some (p, q) => Some (e :: p, q) | None => None end
+  end.
+
+Definition is_call (j : nat) (e : event) : bool :=
+  match e with ERunCall i => Nat.eqb i j | _ => false end.
+Definition is_recv (c : nat) (e : event) : bool :=
+  match e with ESubRecv c1 _ => Nat.eqb c1 c | _ => false end.
+Definition is_cancel (c : nat) (e : event) : bool :=
+  match e with ESubCancel c1 => Nat.eqb c1 c | _ => false end.
+Definition has_entry (j : nat) (m : list (option st)) : bool :=
+  match nth j m None with Some _ => true | None => false end.
+Definition is_recv_entry (c j : nat) (e : event) : bool :=
+  match e with ESubRecv c1 m => Nat.eqb c1 c && has_entry j m | _ => false end.
+
+(* subscriber c was not cancelled before Stateable runnable j's Run was invoked: c has taken a
+   snapshot with an entry for j (startRunnable broadcasts the map after storing j's initial state, and
+   a later subscription starts from a map that has the entry) - unless c took ten or more snapshots
+   (its channel may have been full when startRunnable broadcast) *)
+Definition sub_entry_ok (c j : nat) (pre : list event) : bool :=
+  match split_at (is_call j) pre with
+  | Some (p, _) =>
+    existsb (is_cancel c) p || existsb (is_recv_entry c j) pre || Nat.leb 10 (count_if (is_recv c) pre)
+  | None => true
+  end.
+
+(* checked when the consumer sees its channel closed (hence drained) *)
+Definition chk_sub_entry (cfg : config) (pre : list event) (e : event) : bool :=
   match e with
-  | ERunCall _ => cancel_evidence pre || negb (err_then_quiet false pre)
+  | ESubClosed c => forallb (fun j => negb (stateable (spec cfg j)) || sub_entry_ok c j pre) (seq 0 (nrun cfg))
   | _ => true
   end.
-Definition c03_pending_nc (c : config) (t : list event) : bool := all_check chk_pending_nc t.
+Definition c06_sub_entry (cfg : config) (t : list event) : bool := all_check (chk_sub_entry cfg) t.
